@@ -87,6 +87,7 @@ TABLE = [
     ('R11', 'std::cmp::min -> vmin', re.compile(r'\bstd::cmp::min\('), 'vmin('),
     ('R11', 'std::mem::replace -> vreplace', re.compile(r'\bstd::mem::replace\('), 'vreplace('),
     ('R11', 'std::mem::take -> vtake_vec', re.compile(r'\bstd::mem::take\('), 'vtake_vec('),
+    ('R4', 'aesgcm::T -> T (types of crypto/aesgcm.rs are modelled in prelude/cipher.rs under their own names)', re.compile(r'\baesgcm::(Nonce|Key|AesGcm256|Tag)\b'), r'\1'),
     ('R4', 'enum header <R: Read> -> <R: VRead>', re.compile(r'<([RT]): Read>'), r'<\1: VRead>'),
     ('R4', 'brotli::Decompressor<Take<R>> -> VDecompressor<R>', re.compile(r'brotli::Decompressor<Take<(\w+)>>'), r'VDecompressor<\1>'),
     ('R4', 'enum header <W: Write> -> <W: VSink>', re.compile(r'<W: Write>'), '<W: VSink>'),
@@ -144,7 +145,9 @@ TABLE = [
      re.compile(r'brotli::Decompressor::new\((?:\s|//[^\n]*\n)*(\w+)\.take\(([^,]*?)\),\s*(\w+),?\s*\)'), r'VDecompressor::new_take(\1, \2, \3)'),
     ('R4', 'decompressor.into_inner().into_inner() -> .into_inner2()', re.compile(r'\.into_inner\(\)\.into_inner\(\)'), '.into_inner2()'),
     ('R8', 'io::copy(&mut (&mut D).take(N), &mut io::sink()) -> D.skip_take(N)',
-     re.compile(r'io::copy\(&mut \(&mut (decompressor)\)\.take\((\w+)\), &mut io::sink\(\)\)'), r'\1.skip_take(\2)'),
+     re.compile(r'io::copy\(\s*&mut \(&mut (decompressor)\)\.take\(([^;]*?)\),\s*&mut io::sink\(\),?\s*\)'), r'\1.skip_take(\2)'),
+    ('R8', 'io::copy(&mut D.by_ref().take(N), &mut io::sink()) -> D.skip_take(N)',
+     re.compile(r'io::copy\(\s*&mut (decompressor)\.by_ref\(\)\s*\.take\(([^;]*?)\),\s*&mut io::sink\(\),?\s*\)'), r'\1.skip_take(\2)'),
     ('R9', 'V.iter().take(N).map(|s| u64::from(*s)).sum() -> vsum_prefix_u32(V, N)',
      re.compile(r'(\b[\w.]+)\s*\.iter\(\)\s*\.take\((.*?)\)\s*\.map\(\|(\w+)\| u64::from\(\*\3\)\)\s*\.sum\(\)', re.S), r'vsum_prefix_u32(\1, \2)'),
     ('R9', 'V.iter().map(|s| u64::from(*s)).sum() -> vsum_all_u32(&V)',
@@ -166,6 +169,13 @@ OPTIONAL = {
     # R9: name the ghost iterator of every `for` loop of the function (`for PAT in EXPR {` -> `for PAT in it: EXPR {`)
     'forit': [
         ('R9', 'for PAT in EXPR { -> for PAT in it: EXPR {', re.compile(r'\bfor (\w+|\([^)]*\)) in ([^{;]+?) \{'), r'for \1 in it: \2 {'),
+    ],
+    # R9b: a `for` over a borrowed Vec/slice that leaves through `break`: Verus gives such a loop no exhaustion fact at its normal
+    # exit, so the iteration is written out by its definition (slice iteration = indices 0..len in order; the element is bound
+    # and the index advanced BEFORE the body, so `break`/`continue` in the body keep their meaning)
+    'foridx': [
+        ('R9', 'for X in &V { -> index loop over V', re.compile(r'\bfor (\w+) in &([\w\.]+) \{'),
+         r'let vfor_v = &\2; let mut vfor_i: usize = 0; while vfor_i < vfor_v.len() { let \1 = &vfor_v[vfor_i]; vfor_i += 1;'),
     ],
     'qio': [
         ('R15', 'vio_*(..)? -> vio_*(..).map_err(verr_from_io)?', re.compile(r'(\bvio_\w+' + _ARGS + r')\s*\?'), r'\1.map_err(verr_from_io)?'),
